@@ -7,6 +7,7 @@ mod hc_random;
 mod hc_hostile;
 mod hc_script;
 mod tfrc;
+mod codec;
 mod sess;
 mod sess_random;
 
@@ -122,6 +123,22 @@ fn main() {
             }
             progress(&progress_path, "done");
             eprintln!("tfrc: runs={} calls={} dead={} lines={}", runs, calls, dead, tr.lines);
+        }
+        "codec" => {
+            WD_SECS.store(3, std::sync::atomic::Ordering::SeqCst);
+            let seed = geti(&m, "seed", 1);
+            let runs = geti(&m, "runs", 10);
+            let start = geti(&m, "start", 0);
+            let mut tr = Trace::create(&out);
+            for i in start..start + runs {
+                progress(&progress_path, &format!("{}", i));
+                codec::run_codec(&mut tr, i, mix(seed ^ 0xC0DEC, i), m.get("vectors").map(|s| s.as_str()));
+            }
+            progress(&progress_path, "done");
+            eprintln!("codec: runs={} lines={}", runs, tr.lines);
+        }
+        "crc-extract" => {
+            codec::crc_extract(&out);
         }
         "sess-random" => {
             let seed = geti(&m, "seed", 1);
